@@ -38,6 +38,8 @@ def l_cases(tier):
     out.append(("@(x|g) + (0 + f|g)", ["x", "f"], "g", ["g"], False))
     out.append(("@(0 + x|g) + (f|g)", ["x", "f"], "g", ["g"], False))
     out.append(("@(1|g) + (0 + f|g + j)", ["f"], "g + j", ["g", "j"], "mixed"))
+    out.append(("@(x|g:j) + (z|j:g)", ["x", "z"], "g:j", ["g:j"], False))
+    out.append(("@(1|g:j) + (x|j:g)", ["x"], "g:j", ["g:j"], False))
     return out
 
 
@@ -72,7 +74,7 @@ def check_l(case, seed):
             return {"outcome": "violation", "what": "design cannot be built", "exc": type(e).__name__, "site": core.repo_site(e), "formula": formula, "detail": str(e)[:160]}
         res_attempt = None
         for fac in gfacs:
-            cols = [np.asarray(dm.group[name]) for name, t in dm.group.terms.items() if t.factor.name == fac]
+            cols = [np.asarray(dm.group[name]) for name, t in dm.group.terms.items() if set(t.factor.name.split(":")) == set(fac.split(":"))]
             if not cols:
                 res_attempt = ("missing", f"no term for grouping factor {fac}")
                 break
